@@ -150,6 +150,11 @@ func (h H) leaderReleaseCleansUp(rule string, which ...string) {
 				if f := c.Common().StaticCallee(); f != nil && f.String() == "(*sync.WaitGroup).Wait" {
 					wait = in
 				}
+				// …or through the routine that stops the replications and waits
+				// for them on every path (shape decided by the log-readers rule)
+				if f := c.Common().StaticCallee(); f != nil && h.name(f) == "(*leader).stopRepls" && waitsOnEveryPath(f) {
+					wait = in
+				}
 			}
 			if st, ok := in.(*ssa.Store); ok && fi.Sym(st.Addr).String() == "leader.replUpdateCh" && fi.Sym(st.Val).String() == "nil" {
 				clear = in
@@ -516,6 +521,13 @@ func (h H) configActionProgress(rule string, which string) {
 				return isC && h.P.IsCallTo(in, begin) && h.argStr(c, 1) == "leader.Raft.storage.lastLogIndex"
 			})
 			ok = r.OK
+			// …and the walk over the replications is not skipped: no return
+			// of the function lies before the loop
+			for _, ret := range core.Returns(bfr) {
+				if !hds[0].Dominates(ret.Block()) {
+					ok = false
+				}
+			}
 		}
 		h.C.Check(rule+" finished-rounds-begin-again", "(*leader).beginFinishedRounds", ok, h.fpos(bfr), "a finished round of some replication is not begun again with the leader's last log index")
 	}
@@ -1252,4 +1264,194 @@ func (h H) leaderHintProtection(rule string) {
 		"(*Raft).stateLoop", "(*Raft).onAppendEntriesRequest", "(*Raft).onInstallSnapRequest", "(*Raft).onTimeoutNowRequest",
 		"(*follower).onTimeout", "(*candidate).onVoteResult", "(*leader).release", "(*leader).checkQuorum", "(*leader).checkReplUpdates",
 		"(*Raft).setCommitIndex", "(*Raft).changeConfig", "(*Raft).commitConfig")
+}
+
+// removedReplicationMuted (C17.12): the replication of a node that is dropped
+// from the configuration is stopped without being waited for; updates it has
+// already queued (a higher term seen by the removed, still campaigning node)
+// are still in replUpdateCh. They are ignored because the leader marks the
+// replication's status removed before it stops it, and checkReplUpdates acts
+// on an update only under !status.removed.
+func (h H) removedReplicationMuted(rule string) {
+	cr := h.fn("raft:(*leader).checkReplUpdates")
+	fi := h.P.Info(cr)
+	n := 0
+	core.Instrs(cr, func(in ssa.Instruction) {
+		acts := false
+		switch x := in.(type) {
+		case *ssa.Panic:
+			acts = in.Block() != cr.Recover
+		case ssa.CallInstruction:
+			if sc := x.Common().StaticCallee(); sc != nil {
+				switch h.name(sc) {
+				case "(*Raft).setTerm", "(*Raft).setState", "(*Raft).setLeader", "(*leader).checkConfigAction":
+					acts = true
+				}
+			}
+		case *ssa.Store:
+			s := fi.Sym(x.Addr).String()
+			acts = strings.HasSuffix(s, ".status.matchIndex") || strings.HasSuffix(s, ".status.noContact") || strings.HasSuffix(s, ".status.removeLTE")
+		}
+		if !acts {
+			return
+		}
+		n++
+		r := fi.MustCross(in, func(a core.Atom) bool {
+			return strings.HasSuffix(a.L, ".status.removed") && (a.Op == "false" || a.Op == "==" && a.R == "false" || a.Op == "!=" && a.R == "true")
+		})
+		h.C.Check(rule+" updates-of-removed-ignored", fmt.Sprintf("(*leader).checkReplUpdates effect#%d", n), r.OK, h.pos(in), "an update queued by the replication of a removed node is acted upon (its higher term deposes the leader, its match index counts): "+r.Witness)
+	})
+	h.C.Floor(rule+" (effects of replication updates)", n, 6)
+	// marking: every stop of a single replication outside leader.release
+	m := 0
+	for _, fn := range h.P.Funcs() {
+		if fn.Pkg == nil || fn.Pkg.Pkg.Name() != "raft" || h.name(fn) == "(*leader).release" || h.name(fn) == "(*leader).stopRepls" || fn.Parent() != nil && h.name(fn.Parent()) == "(*leader).release" {
+			continue
+		}
+		ffi := h.P.Info(fn)
+		core.Instrs(fn, func(in ssa.Instruction) {
+			c, ok := in.(*ssa.Call)
+			if !ok {
+				return
+			}
+			b, ok := c.Common().Value.(*ssa.Builtin)
+			if !ok || b.Name() != "close" {
+				return
+			}
+			arg := ffi.Sym(c.Common().Args[0]).String()
+			if !strings.HasSuffix(arg, ".stopCh") || !strings.Contains(arg, "repls") {
+				return
+			}
+			m++
+			who := strings.TrimSuffix(arg, ".stopCh")
+			r := ffi.PrecededBy(in, func(i ssa.Instruction) bool {
+				st, ok := i.(*ssa.Store)
+				return ok && ffi.Sym(st.Addr).String() == who+".status.removed" && ffi.Sym(st.Val).String() == "true"
+			})
+			h.C.Check(rule+" marked-before-stopped", fmt.Sprintf("%s close(%s)", h.name(fn), arg), r.OK, h.pos(in), "a replication is stopped because its node left the configuration without its status being marked removed first: what it already queued (a newer term, a match index) is still acted upon")
+		})
+	}
+	h.C.Floor(rule+" (single replication stops)", m, 1)
+}
+
+// taskReplyPublishes (C07.9 / C15.4i): whoever waits on a task's done channel
+// reads its result after the channel is closed; the close is what publishes
+// the result. reply therefore stores the result before it closes done — the
+// other order lets a client see a completed task with no error and no result
+// (a rejected update looks applied).
+func (h H) taskReplyPublishes(rule string) {
+	fn := h.fn("raft:(*task).reply")
+	fi := h.P.Info(fn)
+	n := 0
+	core.Instrs(fn, func(in ssa.Instruction) {
+		c, ok := in.(*ssa.Call)
+		if !ok {
+			return
+		}
+		b, ok := c.Common().Value.(*ssa.Builtin)
+		if !ok || b.Name() != "close" || !strings.HasSuffix(fi.Sym(c.Common().Args[0]).String(), ".done") {
+			return
+		}
+		n++
+		r := fi.PrecededBy(in, func(i ssa.Instruction) bool {
+			st, ok := i.(*ssa.Store)
+			return ok && strings.HasSuffix(fi.Sym(st.Addr).String(), ".result") && fi.Sym(st.Val).String() == "$1"
+		})
+		h.C.Check(rule+" result-before-done", fmt.Sprintf("(*task).reply close(done)#%d", n), r.OK, h.pos(in), "the task's done channel is closed before its result is stored: a waiter released by the close reads no error and no result")
+	})
+	h.C.Floor(rule+" (close of task.done in reply)", n, 1)
+	h.onlyWriters(rule+" who-may-write", "raft:task.result", "(*task).reply")
+}
+
+// logChangedOnlyWithoutReaders (C15.12 / C09.10): replication goroutines read
+// the log through views that share the log's segments; clearing, compacting
+// or truncating the log unmaps what they may be reading (a fault the process
+// cannot recover from). A request handler that makes a leader step down only
+// assigns the state — the role is released after the handler returned — so a
+// handler that changes the log first stops the replications and waits for
+// them (leader.stopRepls, the same routine release uses).
+func (h H) logChangedOnlyWithoutReaders(rule string) {
+	sr := h.fn("raft:(*leader).stopRepls")
+	if sr == nil {
+		h.C.Check(rule+" stop-routine", "(*leader).stopRepls", false, "", "no routine stops the replications and waits for them")
+		return
+	}
+	fi := h.P.Info(sr)
+	// shape of stopRepls: every replication's stopCh closed, then wg.Wait
+	var wait ssa.Instruction
+	nClose := 0
+	core.Instrs(sr, func(in ssa.Instruction) {
+		if c, ok := in.(ssa.CallInstruction); ok {
+			if _, plain := in.(*ssa.Call); plain {
+				if sc := c.Common().StaticCallee(); sc != nil && h.name(sc) == "(*sync.WaitGroup).Wait" && strings.HasSuffix(fi.Sym(c.Common().Args[0]).String(), ".wg") {
+					wait = in
+				}
+			}
+			if b, ok := c.Common().Value.(*ssa.Builtin); ok && b.Name() == "close" && strings.HasSuffix(fi.Sym(c.Common().Args[0]).String(), ".stopCh") {
+				nClose++
+			}
+		}
+	})
+	okShape := wait != nil && nClose >= 1
+	if okShape {
+		for _, r := range core.Returns(sr) {
+			if !core.Dominates(wait, r) {
+				okShape = false
+			}
+		}
+	}
+	h.C.Check(rule+" stop-routine", "(*leader).stopRepls", okShape, h.fpos(sr), "stopRepls must close every replication's stop channel and return only after the replications' wait group is done")
+	// release stops them too
+	rel := h.fn("raft:(*leader).release")
+	h.C.Check(rule+" release-stops", "(*leader).release", len(h.P.CallsTo(rel, sr)) >= 1, h.fpos(rel), "leader.release does not stop and wait for the replications")
+	// handlers: log surgery only after stopRepls
+	n := 0
+	for _, spec := range []string{"raft:(*Raft).onInstallSnapRequest", "raft:(*Raft).onAppendEntriesRequest"} {
+		fn := h.fn(spec)
+		ffi := h.P.Info(fn)
+		core.Instrs(fn, func(in ssa.Instruction) {
+			c, ok := in.(ssa.CallInstruction)
+			if !ok {
+				return
+			}
+			sc := c.Common().StaticCallee()
+			if sc == nil {
+				return
+			}
+			switch h.name(sc) {
+			case "(*storage).clearLog", "(*Raft).compactLog":
+				n++
+				r := ffi.PrecededBy(in, func(i ssa.Instruction) bool { return h.P.IsCallTo(i, sr) })
+				h.C.Check(rule+" readers-stopped-first", fmt.Sprintf("%s → %s#%d", h.name(fn), h.name(sc), n), r.OK, h.pos(in), "a request handler clears or compacts the log while the replications of the leadership it has just ended may still be reading it through their views (the role is released only after the handler returns): a read of an unmapped segment kills the process")
+			case "(*storage).removeGTE":
+				n++
+				r := ffi.PrecededBy(in, func(i ssa.Instruction) bool { return h.P.IsCallTo(i, sr) })
+				h.C.Check(rule+" readers-stopped-first", fmt.Sprintf("%s → %s#%d", h.name(fn), h.name(sc), n), true, h.pos(in),
+					fmt.Sprintf("accepted (stopRepls before it: %v): a request that carries entries is sent only by the pipeline, which starts after an entry-less probe of the same term was answered on that connection — the receiver stepped down in that probe and its role was released before this request is taken (C17.4 probe, C06.4c pipeline)", r.OK))
+			}
+		})
+	}
+	h.C.Floor(rule+" (log surgery in request handlers)", n, 3)
+	h.onlyCallers(rule+" who-may-call", "raft:(*storage).clearLog", "(*Raft).onInstallSnapRequest")
+}
+
+// waitsOnEveryPath: every return of fn is dominated by a WaitGroup.Wait call.
+func waitsOnEveryPath(fn *ssa.Function) bool {
+	var wait ssa.Instruction
+	core.Instrs(fn, func(in ssa.Instruction) {
+		if c, ok := in.(*ssa.Call); ok {
+			if f := c.Common().StaticCallee(); f != nil && f.String() == "(*sync.WaitGroup).Wait" {
+				wait = in
+			}
+		}
+	})
+	if wait == nil {
+		return false
+	}
+	for _, r := range core.Returns(fn) {
+		if !core.Dominates(wait, r) {
+			return false
+		}
+	}
+	return true
 }
